@@ -28,6 +28,7 @@ EXPLANATION = (
     " (R14) no engine check() asserts the kind of the other dtype - it answers False. " 
     "NOT decided: closure of the runtime registry under resolve/print/resolve, "
     "parameterised types, anything depending on what pandas/numpy/pyarrow objects print."
+    " (R15) in _build_number_equivalents / _register_numpy_numbers every key of the per-width collection depends on the width variable (directly or through a local computed from it); width-independent keys (the default instance / class / builtin) appear only in the part guarded by a condition on the width - otherwise each width's registration overwrites the previous one and the key resolves to the last width."
 )
 LEVEL_RULE = "one obligation per registry row / key / family member / duplicate pair found in the current tree"
 FLOORS = {"R1": 150, "R2": 60, "R3": 5, "R4": 100, "R5": 6, "R6": 20, "R7": 20, "R8": 3, "R9": 8, "R10": 1, "R11": 1, "R12": 1, "R13": 2, "R14": 1}
@@ -725,6 +726,66 @@ def r13_infer_dtype_labels(ctx):
                 f"{label!r} is not registered: schema inference cannot resolve such a column"), f"{m.path}:{(bad[0][1].lineno if bad else 1)}")
 
 
+def r15_generated_keys_depend_on_the_width(ctx):
+    """`_build_number_equivalents` / `_register_numpy_numbers` generate, for each bit width of a number family, the keys
+    that resolve to *that* width.  A key that does not depend on the width (the default instance `dtypes.Float()`) and is
+    nevertheless put into the collection of every width is registered once per width; each registration overwrites the
+    previous one, so the last (narrowest) width wins: numpy_engine.Engine.dtype(pandera.Float64()) is Float16, because
+    Float() == Float64() share one slot.  Decided: in the per-width collection every element mentions the width variable;
+    width-independent keys live in the part that is added under a condition on the width (`if bit_width == default`)."""
+    n = 0
+    for path in ("pandera/engines/numpy_engine.py", "pandera/engines/pandas_engine.py"):
+        m = ctx.ix.module(path)
+        for f in m.all_functions:
+            if f.name not in ("_build_number_equivalents", "_register_numpy_numbers"):
+                continue
+            loops = []   # (width variable, per-width body nodes)
+            for x in walk_no_nested(f.node):
+                if isinstance(x, ast.DictComp) and isinstance(x.generators[0].target, ast.Name):
+                    loops.append((x.generators[0].target.id, [x.value]))
+                elif isinstance(x, ast.For) and isinstance(x.target, ast.Name):
+                    loops.append((x.target.id, x.body))
+            for var0, body in loops:
+                # names computed from the width inside the loop are width-dependent too (`np_dtype = getattr(np, f"...{bit_width}")`)
+                var = {var0}
+                grew = True
+                while grew:
+                    grew = False
+                    for b in body:
+                        for a in ast.walk(b):
+                            if isinstance(a, ast.Assign) and any(isinstance(v, ast.Name) and v.id in var for v in ast.walk(a.value)):
+                                for t in a.targets:
+                                    if isinstance(t, ast.Name) and t.id not in var:
+                                        var.add(t.id)
+                                        grew = True
+                for b in body:
+                    for coll in ast.walk(b):
+                        if not isinstance(coll, (ast.Set, ast.List, ast.Tuple)) or len(coll.elts) < 2:
+                            continue
+                        # conditional parts (`... if bit_width == default else []`, `if bit_width == ...:` blocks) may hold width-independent keys
+                        conditional, p_, child = False, getattr(coll, "_parent", None), coll
+                        while p_ is not None and p_ is not f.node:
+                            if isinstance(p_, ast.IfExp) and child is not p_.test and any(isinstance(v, ast.Name) and v.id in var for v in ast.walk(p_.test)):
+                                conditional = True
+                            if isinstance(p_, ast.If) and child is not p_.test and any(isinstance(v, ast.Name) and v.id in var for v in ast.walk(p_.test)):
+                                conditional = True
+                            child, p_ = p_, getattr(p_, "_parent", None)
+                        if conditional:
+                            continue
+                        for e in coll.elts:
+                            if isinstance(e, ast.Starred):
+                                continue
+                            n += 1
+                            dep = any(isinstance(v, ast.Name) and v.id in var for v in ast.walk(e))
+                            ctx.ob("R15", f, f"{f.short}: per-width key `{txt(e)[:50]}` depends on the width", dep,
+                                   "mentions the width" if dep else
+                                   f"`{txt(e)}` is the same key for every `{var0}`: it is registered for each width in turn and ends up resolving to the last one "
+                                   "(numpy_engine.Engine.dtype(pandera.Float64()) -> Float16, Int() -> Int8, Complex128() -> Complex64), unequal to the class / string / numpy spellings",
+                                   f.loc(e))
+    if n < 3:
+        raise AnalysisError(f"generated number equivalents: per-width keys found: {n}")
+
+
 def r14_check_answers_false(ctx):
     """`t1.check(t2)` is a question with a boolean answer; for a type of another kind the answer is False.  An
     `assert isinstance(other, <own class>)` in an engine `check` turns that answer into an AssertionError, which escapes
@@ -768,6 +829,7 @@ def run(ctx):
     r12_canonical_fields(ctx)
     r13_infer_dtype_labels(ctx)
     r14_check_answers_false(ctx)
+    r15_generated_keys_depend_on_the_width(ctx)
     ctx.assume("equivalence keys are compared by normalised source text with import aliases expanded; keys that are "
                "equal only at run time (e.g. two spellings of one numpy dtype object) are not detected")
     ctx.assume("generated rows (_build_number_equivalents, _register_numpy_numbers, runtime pyarrow/pyspark objects) "
